@@ -509,10 +509,11 @@ pub fn plan_c11(thorough: bool) -> Plan {
         }
     }
     cases.extend(attempt_in_between_family());
+    cases.extend(disjoint_pages_chain_family("all"));
     sort_by_bound(&mut cases);
     let mut p = Plan::new(
         cases,
-        "histx: every event sequence of length ≤L over {create an overlay on no parent or on any live overlay (with its live ancestor chain), begin a session on a list that is NOT a complete ancestor chain (child without its live parent, reversed chain, unrelated overlays), commit overlay i (blocking / non-blocking), drop overlay i, direct commit, rollback(1|2)} with ≤3 (thorough 4) overlays, from a leaf seed and a 19-key merkle cluster (so overlays create fresh merkle pages); oracle: a session on a complete chain reads, proves and computes the root exactly as the model with the chain applied; SessionParams::overlay is accepted iff the list is a complete ancestor chain; an overlay commit is accepted iff its parent was the last commit (or it has none) and its base is current, and then leaves exactly the state and rollback history of the equivalent direct commits; rejected/dropped/forked overlays leave no trace (audit incl. proofs after every step, final reopen). Start states: leaf seed, 19-key cluster, committed overflow values (ovf2), and an on-disk pair next to 'round' keys inserted by an overlay. Plus the attempt-in-between family: a committed parent overlay, ONE attempt that must leave no trace (an overlay whose parent is not committed / a stale unrelated overlay / a stale prepared session, through the blocking and the non-blocking entry point; the child itself deferred once), then the legitimate child, which must still be accepted; rolled back afterwards.",
+        "histx: every event sequence of length ≤L over {create an overlay on no parent or on any live overlay (with its live ancestor chain), begin a session on a list that is NOT a complete ancestor chain (child without its live parent, reversed chain, unrelated overlays), commit overlay i (blocking / non-blocking), drop overlay i, direct commit, rollback(1|2)} with ≤3 (thorough 4) overlays, from a leaf seed and a 19-key merkle cluster (so overlays create fresh merkle pages); oracle: a session on a complete chain reads, proves and computes the root exactly as the model with the chain applied; SessionParams::overlay is accepted iff the list is a complete ancestor chain; an overlay commit is accepted iff its parent was the last commit (or it has none) and its base is current, and then leaves exactly the state and rollback history of the equivalent direct commits; rejected/dropped/forked overlays leave no trace (audit incl. proofs after every step, final reopen). Start states: leaf seed, 19-key cluster, committed overflow values (ovf2), and an on-disk pair next to 'round' keys inserted by an overlay. Plus the attempt-in-between family: a committed parent overlay, ONE attempt that must leave no trace (an overlay whose parent is not committed / a stale unrelated overlay / a stale prepared session, through the blocking and the non-blocking entry point; the child itself deferred once), then the legitimate child, which must still be accepted; rolled back afterwards. Plus chains whose overlays touch disjoint merkle pages (one inside a stored 20-key cluster page, one under other root children; both orders; two and three levels): after the older overlays are committed one by one, sessions on the remaining younger ones alone must read and prove every key (the pages a committed ancestor wrote are found in the store again), incl. a changeset prepared on the last overlay and committed directly.",
     );
     p.budget_s = if thorough { 1700 } else { 55 };
     p
@@ -650,6 +651,52 @@ pub fn prepared_on_overlay_family() -> Vec<Value> {
         ops.push(json!({"reopen": {}}));
         ops.push(c(vec![w(2, 2)]));
         cases.push(case("cl12x19", uni.clone(), &cfg, "all", ops, 4, true));
+    }
+    cases
+}
+
+
+/// Chains whose overlays touch DISJOINT merkle pages: one overlay works inside a stored cluster
+/// page (20 keys under one depth-2 page), the other writes keys under other root children. After
+/// the older one has been committed, a session on the younger one alone must find the pages the
+/// committed ancestor wrote in the store again (the younger overlay's index still lists them).
+pub fn disjoint_pages_chain_family(audit: &str) -> Vec<Value> {
+    let mut cfg = rb_cfg(3, 0);
+    cfg.buckets = 64;
+    let uni = vec!["CL12:17-23", "U4"]; // indices 0-5: cluster (0-2 present), 6-9: elsewhere (absent)
+    let cluster: Vec<Vec<Value>> = vec![vec![w(0, 5)], vec![w(4, 1)], vec![del(0)], vec![del(0), del(1)]];
+    let elsewhere: Vec<Vec<Value>> = vec![vec![w(6, 1)], vec![w(6, 1), w(9, 1333)]];
+    let mut cases = vec![];
+    for a in &cluster {
+        for b in &elsewhere {
+            for swapped in [false, true] {
+                let (first, second) = if swapped { (b, a) } else { (a, b) };
+                // two-level chain; the parent is committed; sessions on the child alone
+                cases.push(case("cl12x20", uni.clone(), &cfg, audit, vec![
+                    json!({"ov": {"id": 0, "on": [], "b": first}}),
+                    json!({"ov": {"id": 1, "on": [0], "b": second}}),
+                    json!({"ovc": 0}),
+                    json!({"ov": {"id": 2, "on": [1], "b": [w(7, 1), w(3, 2)]}}),
+                    json!({"ovc": 1}),
+                    json!({"ov": {"id": 3, "on": [2], "b": [w(8, 1)]}}),
+                    json!({"ovc": 2}),
+                    json!({"rb": 1}),
+                ], 4, true));
+                // three-level chain; the two oldest committed one by one
+                cases.push(case("cl12x20", uni.clone(), &cfg, audit, vec![
+                    json!({"ov": {"id": 0, "on": [], "b": first}}),
+                    json!({"ov": {"id": 1, "on": [0], "b": second}}),
+                    json!({"ov": {"id": 2, "on": [1, 0], "b": [w(8, 1)]}}),
+                    json!({"ovc": 0}),
+                    json!({"ov": {"id": 3, "on": [2, 1], "b": [w(7, 1)]}}),
+                    json!({"ovc": 1}),
+                    json!({"ov": {"id": 4, "on": [2], "b": [w(3, 2)]}}),
+                    json!({"prep": {"id": 0, "on": [2], "b": [w(5, 4)]}}),
+                    json!({"ovc": 2}),
+                    json!({"fc": 0}),
+                ], 5, true));
+            }
+        }
     }
     cases
 }
@@ -801,6 +848,7 @@ pub fn plan_c05(thorough: bool) -> Plan {
         }
     }
     cases.extend(tombstone_family("proofs", thorough));
+    cases.extend(disjoint_pages_chain_family("proofs"));
     add_quiet(&mut cases, if thorough { 1 } else { 2 });
     sort_by_bound(&mut cases);
     let mut p = Plan::new(
